@@ -16,6 +16,12 @@ def run(tier, seed):
     from . import c11load
     spec['trusted'] = list(spec.get('trusted', [])) + list(c11load.TRUSTED)
     spec['assumptions'] = list(spec.get('assumptions', [])) + list(c11load.ASSUMPTIONS)
+    # what the restarted master reads goes through ZkBackend / zkutils (E-master replaces them by an in-memory backend):
+    # Store/ZkUtils.v, Props/C09Zk.v, harness/props/zkutilsstage.py - the read side (a stored record decodes to itself)
+    from . import zkutilsstage
+    spec['trusted'] += list(zkutilsstage.TRUSTED)
+    spec['assumptions'] += list(zkutilsstage.ASSUMPTIONS)
+    spec['table_sections'] = list(spec.get('table_sections', [])) + list(zkutilsstage.SECTIONS)
     inner = spec.get('extra')
 
     def extra(r, cases, obs):
@@ -23,6 +29,9 @@ def run(tier, seed):
         u = c11load.stage(r, seed, tier)
         cov['extra_obligations'] = cov.get('extra_obligations', 0) + u.pop('loadmodel_obligations', 0)
         cov.update(u)
+        z = zkutilsstage.stage(r, seed, tier, n=400 if tier == 'quick' else 6000)
+        cov['extra_obligations'] = cov.get('extra_obligations', 0) + z.pop('zkutils_obligations', 0)
+        cov.update(z)
         return cov
     spec['extra'] = extra
     core.standard_run(PID, tier, seed, spec)
@@ -32,4 +41,7 @@ def replay_case(case):
     if isinstance(case, dict) and case.get('engine') == 'E-master-c11load':
         from . import c11load
         return c11load.replay_case(case)
+    if isinstance(case, dict) and case.get('engine') == 'E-zkutils':
+        from . import zkutilsstage
+        return zkutilsstage.replay_case(case)
     return emaster.replay(PID, case)
